@@ -229,6 +229,8 @@ def mk_spm_vocab(rng, name, style):
         for g in rng.sample(range(256), 20):
             bytetoks[g] = b"<unused%d>" % g
         complete = False
+    if style in ("normal-first", "overlap"):
+        rng.shuffle(bytetoks)   # the 256 byte tokens are NOT stored in ascending byte order
     if style == "normal-first":
         for t in normal:
             values.append(t.encode())
@@ -538,6 +540,36 @@ def gen(ctx):
                 add(v, pb, "special-part", group="%s:p%d" % (g, n))
                 whole += pb + (seq[n] if n < len(seq) else b"")
             add(v, whole, "multi-special", group="%s:t:%s" % (g, ",".join(x.hex() for x in seq)))
+    # SEQUENCES on one long-lived tokenizer object: growing prefixes of a text (cut inside / at the edges of special literals,
+    # inside words, at whitespace, between the runes of multi-byte text), then shrinking, unrelated and repeated texts; every call
+    # must answer what a fresh tokenizer answers
+    for v in vocabs:
+        sps = [x.decode("utf-8", "replace") for x in v.specials if x and is_valid_utf8(x)]
+        alpha = None if v.sparse else getattr(v, "alpha", None) or (BPE_ALPHA if v.kind == "bpe" else SPM_ALPHA)
+        for k in range((6 if v.sparse else 10) if q else 60):
+            parts = []
+            for _ in range(rng.randint(1, 3)):
+                parts.append(rng.choice(["Hello there", "General Kenobi", "你好世界", "naïve café", "a b  c\n", "1234 56", "it's"]) if rng.random() < 0.5
+                             else (rnd_text(rng, alpha, 3) if alpha and rng.random() < 0.5 else rnd_text(rng, None, 3)))
+                if sps and rng.random() < 0.8:
+                    parts.append(rng.choice(sps))
+            t = clean("".join(parts))
+            cuts = set()
+            pos = 0
+            for pt in parts:
+                if pt in sps:
+                    for d in (0, 1, 2, len(pt) // 2, len(pt) - 1, len(pt)):
+                        cuts.add(pos + d)          # at the edges of / inside the special literal
+                pos += len(clean(pt))
+            for _ in range(rng.randint(2, 5)):
+                cuts.add(rng.randint(0, len(t)))
+            cuts = sorted(c_ for c_ in cuts if 0 < c_ < len(t))
+            if len(cuts) > 7:
+                cuts = sorted(rng.sample(cuts, 7))
+            seq = [t[:c_] for c_ in cuts] + [t]
+            seq += [t[:cuts[0]] if cuts else "", rnd_text(rng, None, 2), t, t + rng.choice(["", " more", "!"] + sps[:1]), seq[0] if seq else ""]
+            cases.append({"op": "seq", "vocab": v.name, "texts": [x.encode("utf-8", "surrogatepass").hex() for x in seq], "add_special": rng.random() < 0.15,
+                          "new_live": rng.random() < 0.5, "klass": "sequence", "group": None, "text": ""})
     return vocabs, cases
 
 
@@ -918,12 +950,29 @@ def run(ctx, only=None):
     fails = {}
     groups = {}
     npt_bad = 0
+    seq_fail = []
     cls_bad = []
     for c, o in zip(cases, obs):
         for r_, m_ in o.get("classes", []) if isinstance(o, dict) else []:
             # hypothesis of C20_pretokenize_partition_tekken: a \p{L} rune is in one of the letter subclasses
             if m_ & 1 and not m_ & 0b11111000:
                 cls_bad.append(r_)
+        if c["op"] == "seq":
+            v = vby[c["vocab"]]
+            steps = o.get("steps")
+            ctx.note_case({"v": v.name, "seq": c["texts"], "s": c["add_special"]}, bool(steps) and len(steps) > 2, v.kind + ":sequence",
+                          sample={"case": {"vocab": v.name, "texts": [repr(bytes.fromhex(x)) for x in c["texts"]]}, "impl": [st.get("ids") for st in (steps or [])][:4]})
+            if steps is None or len(steps) != len(c["texts"]):
+                ctx.violation({"family": v.kind, "class": "encode-failed"}, "sequence of Encode calls failed: %s" % str(o)[:300], {"case": c, "impl": o})
+                continue
+            for k, (th, st) in enumerate(zip(c["texts"], steps)):
+                tb = bytes.fromhex(th)
+                if any(i < 0 or i >= o["n"] for i in st.get("ids", [])):
+                    ctx.violation({"family": v.kind, "class": "id-out-of-vocab"}, "Encode(%r) produced an id outside the vocabulary" % tb, {"case": c, "impl": st})
+                if not st.get("same", False):
+                    seq_fail.append((v, c, k, st))
+                    break
+            continue
         if c["op"] == "pretok":
             tb = bytes.fromhex(c["text"])
             ps = [bytes.fromhex(x) for x in o.get("pieces", [])]
@@ -1016,6 +1065,26 @@ def run(ctx, only=None):
                               whole, seq, [v.enc[x] for x in seq], ot["ids"], want),
                           {"case": ct, "impl": ot, "parts": [x[1] for x in parts]})
     ctx.extra["special_literal_checks"] = nsp
+    # monitor 4: state across calls - shrink each diverging sequence to (one earlier text, the diverging text)
+    for v, c, k, st in seq_fail[:4]:
+        texts = c["texts"]
+        cand = [[texts[j], texts[k]] for j in range(k)] + [[texts[k], texts[k]]]
+        cs = [{"op": "seq", "vocab": v.name, "texts": x, "add_special": c["add_special"], "new_live": True} for x in cand]
+        ob, _ = ctx.run_jsonl(binp, [v.setup_line()] + cs, args=[vlib.REPO])
+        pair = None
+        for x, oo in zip(cand, (ob or [])[1:]):
+            sts = oo.get("steps") or []
+            if len(sts) == 2 and not sts[1].get("same", True):
+                pair = (x, sts)
+                break
+        tb = bytes.fromhex(texts[k])
+        sp_in = [s_ for s_ in v.specials if s_ and s_ in tb]
+        ctx.violation({"family": v.kind, "class": "sequence-state"},
+                      "%s vocabulary %s: Encode(%r) on a tokenizer that had encoded %s before returns %s, a fresh tokenizer returns %s%s" % (
+                          v.kind, v.name, tb, ("%r" % bytes.fromhex(pair[0][0])) if pair else "%d earlier texts" % k, st.get("ids"), st.get("fresh"),
+                          "; the text contains the special-token literal(s) %s (ids %s), which must be encoded as those ids" % (sp_in, [v.enc[x] for x in sp_in]) if sp_in else ""),
+                      {"vocab": v.setup_line() if not v.sparse else {"op": "llama"}, "sequence": [repr(bytes.fromhex(x)) for x in texts[:k + 1]], "sequence_hex": texts[:k + 1],
+                       "minimal_pair_hex": pair[0] if pair else None, "impl_step": st, "add_special": c["add_special"]})
     # monitor 2: shrink and classify
     nfail = 0
     for vn, lst in fails.items():
